@@ -1,5 +1,6 @@
 (* C06  Server is total and protocol-conformant on arbitrary HTTP requests.
-   Statements only; proofs live in Proofs/Request.v, Proofs/Server.v, Proofs/ServerThms.v.
+   Statements only; proofs live in Proofs/Request.v, Proofs/Server.v, Proofs/ServerThms.v,
+   Proofs/ServerStream.v, Proofs/ServerSettled.v.
 
    Everywhere below: [linked] (which hashes are linked in), [digest_of] (sha256), [subject_of]
    (json.Unmarshal of the subject), [enc] (json.Marshal), [redirect] (http.Redirect) are arbitrary
@@ -13,7 +14,8 @@
    Options.LocationsForDescriptor. *)
 From Coq Require Import String.
 From OCI Require Import Base.Outcome Model.Ref Model.Errors Model.Request Model.Server Model.ServerSpec
-  Model.ServerStream Model.ServerLegacy Proofs.Request Proofs.Server Proofs.ServerThms Proofs.ServerStream.
+  Model.ServerStream Model.ServerSettled Model.ServerLegacy Proofs.Request Proofs.Server Proofs.ServerThms
+  Proofs.ServerStream Proofs.ServerSettled.
 
 (* 1. no_panic: the handler returns a response; it neither panics nor leaves the model. *)
 Theorem C06_no_panic :
@@ -203,6 +205,54 @@ Theorem C06_streamed_discriminates :
   /\ stream_ok tr rs (mkresp 500 [] (s "{}") (Some e)) = true.
 Proof. exact stream_ok_discriminates. Qed.
 Print Assumptions C06_streamed_discriminates.
+
+(* Which reports of a BlobWriter count (BlobWriter.ID: "only valid before Write has been called or
+   after Close has been called"; a buffering writer learns the session's new name and how much
+   the registry holds when Close flushes).  For EVERY backend, in scope or not: whenever the
+   handler asked its writer for ID() or Size(), the last such answers of the exchange were given
+   while the writer was settled - no Write before, or a Close after the last Write - and no
+   Write followed ([settled] skips the reports made between a Write and its Close and forgets
+   those made before a Write; it finds the same ones as "the last reported"). *)
+Theorem C06_writer_asked_when_settled :
+  forall linked digest_of subject_of enc redirect B (bstep : backend B) o b req,
+    let '(_, tr, r) := handle linked digest_of subject_of enc redirect B bstep o b req in
+    settled_id tr = last_of upload_id_of tr None /\ settled_size tr = last_of upload_size_of tr None.
+Proof. exact reports_settled_always. Qed.
+Print Assumptions C06_writer_asked_when_settled.
+
+(* ... hence the specification clause [settled_ok] (Model/ServerSettled.v): the Location of a 202
+   that continues an upload and of a 204 names the repository the upload was opened in and the
+   ID the SETTLED writer reported, and Range is 0-(size-1) for the size the settled writer
+   reported (0-0 for an upload opened afresh and not asked). *)
+Theorem C06_upload_headers_from_settled_writer :
+  forall linked digest_of subject_of enc redirect B (bstep : backend B) o b req,
+    let '(_, tr, r) := handle linked digest_of subject_of enc redirect B bstep o b req in
+    wb_trace tr = true -> wb_locs (o_locs o) tr = true ->
+    exists resp, r = Ok resp /\ settled_ok tr resp = true.
+Proof. exact settled_headers. Qed.
+Print Assumptions C06_upload_headers_from_settled_writer.
+
+(* The clause tells exchanges apart: a PATCH whose writer was asked after the Close is accepted
+   with the values reported then; the same answers given between the Write and the Close, before
+   the Write, or before a second Write are refused although they are the last ones reported;
+   without a Write the order does not matter; a failure response is not constrained. *)
+Theorem C06_settled_discriminates :
+  let opn := ECall (PushBlobChunkedResume (s "foo") (s "id0") 0 3) (Ok (VWriter 1%N)) in
+  let wr := ECall (WWrite 1%N (s "abc")) (Ok (VN 3)) in
+  let cl := ECall (WClose 1%N) (Ok VUnit) in
+  let id := ECall (WID 1%N) (Ok (VStr (s "id1"))) in
+  let sz := ECall (WSize 1%N) (Ok (VN 3)) in
+  let resp := mkresp 202 [(H_location, upload_location (s "foo") (s "id1")); (H_range, s "0-2")] [] None in
+  settled_ok [opn; wr; cl; id; sz] resp = true
+  /\ settled_ok [opn; wr; id; sz; cl] resp = false
+  /\ settled_ok [opn; wr; id; cl; sz] resp = false
+  /\ settled_ok [opn; wr; cl; id; sz; wr; cl] resp = false
+  /\ settled_ok [opn; id; sz; wr; cl] resp = false
+  /\ settled_ok [opn; id; sz; cl] resp = true
+  /\ settled_ok [opn; cl; id; sz] resp = true
+  /\ settled_ok [opn; wr; id; sz; cl] (mkresp 500 [] [] (Some (JErr (W (s "UNKNOWN") [] None)))) = true.
+Proof. exact settled_ok_discriminates. Qed.
+Print Assumptions C06_settled_discriminates.
 
 (* The Location of an upload: for a valid repository name and a non-empty valid UTF-8 upload
    ID, MustConstruct of the upload-info request succeeds (url.Parse and Parse accept what
